@@ -74,3 +74,9 @@ fn cmp(row1: &Row, row2: &Row, orders: &[bool]) -> Ordering {
     }
     Ordering::Equal
 }
+
+/// Verification hook: the comparator used by `TopNExecutor`.
+#[cfg(risinglight_verif)]
+pub fn verif_topn_cmp(row1: &Row, row2: &Row, orders: &[bool]) -> Ordering {
+    cmp(row1, row2, orders)
+}
